@@ -33,12 +33,20 @@ def fmtSeg (ran : List Nat) (sent : List Dgram) : String :=
 def parseRType : String → Option RType
   | "con" => some .con | "non" => some .non | _ => none
 
-def parseBeh : String → Option Beh
+def parseBehWord : String → Option Beh
+  | "rst" => some .rst | "rstc" => some .rstc | "ox" => some .ox | "oc" => some .oc | "oxc" => some .oxc
   | "pb" => some .pb | "pbe" => some .pbe | "none" => some .none | "sep" => some .sep
   | "empty" => some .empty | "blk" => some .blk
   -- the handler hijacks its request and re-uses / releases it: what it does with the request object afterwards must not
   -- matter, the reply belongs to the request as it arrived
   | "hjm" => some .pb | "hjr" => some .none
+  | _ => none
+
+/-- `<beh>.<code>`: the request's code (GET, FETCH, PATCH, an unassigned one …) does not matter to de-duplication. -/
+def parseBeh (s : String) : Option Beh :=
+  match s.splitOn "." with
+  | [b] => parseBehWord b
+  | [b, c] => if c.toNat?.isSome then parseBehWord b else none
   | _ => none
 
 /-- An op of the scenario line, expanded into the model events it stands for. -/
